@@ -704,6 +704,13 @@ class Runner:
             # every pack grew by exactly the bytes of the newly indexed entries
             if before is not None:
                 old_rows = set(map(tuple, before['rows']))
+                if self.ht2 == self.ht:
+                    # same hash algorithm: content the destination held in ANY form (loose included) is not written again at all
+                    held = {r[1] for r in before['rows']} | set(before['loose'])
+                    again = sorted({r[1] for r in raw['rows'] if tuple(r) not in old_rows} & held)
+                    if again:
+                        raise Fail({'C14', 'C09'}, f'import (same hash {self.ht}) wrote and indexed {len(again)} objects the destination already held '
+                                                   f'(e.g. {again[0][:8]}, held {"loose" if again[0] in before["loose"] else "packed"} before the import)')
                 for pid, data in raw['packs'].items():
                     grown = len(data) - len(before['packs'].get(pid, b''))
                     newref = sum(r[4] for r in raw['rows'] if r[2] == pid and tuple(r) not in old_rows)
